@@ -107,9 +107,9 @@ var wantState = map[string]string{
 }
 
 var validSim = []string{"", "exactflags", "exactlines", "anypointer", "anyvalue"}
-var badSim = []string{"bogus", "ANYPOINTER", "alike", "1", "any value"}
+var badSim = []string{"bogus", "ANYPOINTER", "alike", "1", "any value", "exact"}
 var validAug = []string{"", "0", "1"}
-var badAug = []string{"2", "-1", "x", "1.0"}
+var badAug = []string{"2", "-1", "x", "1.0", "true", "false", "t", "T", "yes", "on"}
 var validMem = []string{"", "1", "500000", "1048576", "2097152", "67108864", "3000000"}
 var badMem = []string{"abc", "1e6", "99999999999999999999999", "0x10"}
 
@@ -160,7 +160,7 @@ func GenPlan(r *core.Rng, seed, run uint64) *Plan {
 			m, q, _ := genQuery(r)
 			if r.Chance(0.3) {
 				// bias towards rejected requests
-				q = "similarity=" + badSim[r.Intn(len(badSim)-1)]
+				q = "similarity=" + strings.ReplaceAll(badSim[r.Intn(len(badSim))], " ", "+")
 				m = "GET"
 			}
 			p.Steps = append(p.Steps, Step{Op: "request", Method: m, Query: q})
@@ -186,6 +186,18 @@ func GenPlan(r *core.Rng, seed, run uint64) *Plan {
 			p.Steps = append(p.Steps, Step{Op: "spawn", Kind: kinds[r.Intn(7)], Creator: r.Intn(4)})
 		}
 		p.Steps = append(p.Steps, Step{Op: "resumereq", Target: 0}, Step{Op: "resumereq", Target: 1}, Step{Op: "snapshot"})
+		return p
+	}
+	if r.Chance(0.012) {
+		// "huge" flavour: a dump of more than 8 MiB (well below the default limit
+		// of 64 MiB): the capture has to double its buffer four times and more
+		n := r.Range(1100, 1500)
+		for i := 0; i < n; i++ {
+			p.Steps = append(p.Steps, Step{Op: "spawn", Kind: []string{"recv", "wg", "cond", "select2"}[r.Intn(4)], Depth: r.Range(75, 95), Creator: r.Intn(3)})
+		}
+		for _, q := range []string{"maxmem=67108864", []string{"", "maxmem=33554432&augment=0", "similarity=exactlines"}[r.Intn(3)]} {
+			p.Steps = append(p.Steps, Step{Op: "request", Method: "GET", Query: q})
+		}
 		return p
 	}
 	if r.Chance(0.04) {
